@@ -862,6 +862,9 @@ impl Scenario for ReplCell {
             }
         }
         let mut r = self.final_check(x);
+        if r.is_ok() && self.oracles.c16 {
+            r = crate::props::c16::check_closed(self.property, &mut x.sim);
+        }
         if r.is_ok() && (self.oracles.c11 || self.oracles.c11_rest) {
             r = crate::props::c11::quiescence(self, x);
         }
